@@ -2,7 +2,7 @@
 # Re-runs tools/seedtest.sh for every seeded change (3 at a time, with the tier recorded in
 # its result.json) and prints those not caught.
 cd "$(dirname "$0")/.."
-ls -d seeded/*/ | grep -v _rejected | sed 's#/$##' | VERIF_WORKERS=${VERIF_WORKERS:-6} xargs -P 3 -I{} sh -c 'tier=$(python3 -c "import json,sys;print(json.load(open(sys.argv[1]+\"/result.json\")).get(\"tier\",\"quick\"))" {} 2>/dev/null || echo quick); timeout 3000 tools/seedtest.sh {} $tier 2>&1 | tail -1 | cut -c1-160' > /tmp/seedall.log
+ls -d seeded/*/ | grep -v "seeded/_" | sed 's#/$##' | VERIF_WORKERS=${VERIF_WORKERS:-6} xargs -P 3 -I{} sh -c 'tier=$(python3 -c "import json,sys;print(json.load(open(sys.argv[1]+\"/result.json\")).get(\"tier\",\"quick\"))" {} 2>/dev/null || echo quick); timeout 3000 tools/seedtest.sh {} $tier 2>&1 | tail -1 | cut -c1-160' > /tmp/seedall.log
 grep -c "caught=yes" /tmp/seedall.log
 grep -v "caught=yes" /tmp/seedall.log
 python3 tools/seedreadme.py
